@@ -800,6 +800,19 @@ class BuiltinMixin:
         m, a, b, v = args
         return Val(Ty("IntMap2"), z3.Store(m.t, a.t, b.t, v.t))
 
+    def x_bi_mset_row(self, args, kw, st, node):
+        """Ghost: the two-index map with row k replaced by the one-index map m."""
+        m2, k, m = args
+        a_, b_ = z3.Int("a!mr"), z3.Int("b!mr")
+        arr = fresh("gmap2", z3.ArraySort(I, I, I))
+        ax = z3.ForAll([a_, b_], z3.Select(arr, a_, b_) == z3.If(a_ == k.t, z3.Select(m.t, b_), z3.Select(m2.t, a_, b_)),
+                       patterns=[z3.Select(arr, a_, b_)])
+        if st.spec:
+            self.axioms.append(ax)
+        else:
+            st.assume(ax)
+        return Val(Ty("IntMap2"), arr)
+
     def x_bi_mremap(self, args, kw, st, node):
         """Ghost: every entry equal to `frm` becomes `to`."""
         m, frm, to = args
@@ -1090,7 +1103,9 @@ class BuiltinMixin:
             k_last = self.sort_key(out, keyfn, n - 1, sub, items=new_items)
             lo_ok = self.key_le(ki[1], k_first[1], sub) if rev else self.key_le(k_first[1], ki[1], sub)
             hi_ok = self.key_le(k_last[1], ki[1], sub) if rev else self.key_le(ki[1], k_last[1], sub)
-            st.assume(z3.ForAll([i0], z3.Implies(z3.And(0 <= i0, i0 < n), z3.And(lo_ok, hi_ok)), patterns=[z3.Select(src, i0)]))
+            import os as _os
+            if not _os.environ.get("PYVC_NO_ENDS"):
+                st.assume(z3.ForAll([i0], z3.Implies(z3.And(0 <= i0, i0 < n), z3.And(lo_ok, hi_ok)), patterns=[z3.Select(src, i0)]))
         out.x["perm"] = perm
         out.x["pinv"] = pinv
         a2 = z3.Int("j!pm")
